@@ -3,6 +3,7 @@ package gdbi
 import (
 	"errors"
 	"fmt"
+	"strings"
 
 	"github.com/bmeg/grip/gripql"
 	"github.com/bmeg/grip/util/copy"
@@ -230,6 +231,9 @@ func (vertex *Vertex) Validate() error {
 	}
 	if vertex.Label == "" {
 		return errors.New("'label' cannot be blank")
+	}
+	if strings.ContainsRune(vertex.ID, 0) || strings.ContainsRune(vertex.Label, 0) {
+		return errors.New("'gid' and 'label' cannot contain a NUL byte")
 	}
 	for k := range vertex.Data {
 		err := gripql.ValidateFieldName(k)
